@@ -86,8 +86,9 @@ class BProg:
         self.trait, self.is_enum, self.type_slots, self.variants, self.where = trait, is_enum, type_slots, variants, where
         self.default_variant = 0
         self.valued = set()        # (variant name, field name) of fields carrying an explicit `#[default(expr, ..)]` value (Default only)
+        self.keyed = set()         # (variant name, field name) of fields compared through `#[ord(key = ..)]` (comparison traits): no default field bound, the bound(..) levels are untouched
 
-    def attrs_for(self, slots, placement, valued=False):
+    def attrs_for(self, slots, placement, valued=False, keyed=False):
         """attribute text for one placement"""
         out = []
         this = next((s for s in slots if s.kind == "this"), None)
@@ -97,9 +98,11 @@ class BProg:
                 bt = s.bound_text()
                 a = s.kind.split(":")[1]
                 if bt is not None:
-                    out.append("#[%s(%s)]" % (a, (("Default::default(), " if valued else "_, ") + bt) if a == "default" else bt))
+                    out.append("#[%s(%s)]" % (a, (("Default::default(), " if valued else "_, ") + bt) if a == "default" else (("key = kf(&$), " + bt) if keyed and a == "ord" else bt)))
                 elif valued and a == "default":
                     out.append("#[default(Default::default())]")
+                elif keyed and a == "ord":
+                    out.append("#[ord(key = kf(&$))]")
         tb = this.bound_text() if this else None
         cb = common.bound_text() if common else None
         if placement != "type" and (tb is not None or cb is not None):
@@ -121,7 +124,7 @@ class BProg:
                 return ""
             fs = []
             for (n, ty, sl) in fields:
-                at = self.attrs_for(sl, "field", (vn, n) in self.valued)
+                at = self.attrs_for(sl, "field", (vn, n) in self.valued, (vn, n) in self.keyed)
                 fs.append("%s %s%s" % (at, (n + ": ") if kind == "named" else "", ty))
             return (" { %s }" if kind == "named" else "(%s)") % ", ".join(fs)
         if self.is_enum:
@@ -153,7 +156,7 @@ class BProg:
                     preds, vgo = walk((preds, go), vsl, form)
                 for (n, ty, fsl) in fields:
                     preds, fgo = walk((preds, vgo), fsl, form)
-                    if fgo and "T" in re.findall(r"\w+", ty) and (vn, n) not in self.valued:
+                    if fgo and "T" in re.findall(r"\w+", ty) and (vn, n) not in self.valued and (vn, n) not in self.keyed:
                         preds.append(form(ty))
             out.append(sorted(norm(p) for p in preds))
         return out
@@ -202,6 +205,13 @@ def random_prog(rng, trait, is_enum, density=0.45):
             fields = fields[:1]
         vs = [("X", kind, [], fields)]
     prog = BProg(trait, is_enum, tslots, vs)
+    if trait in R.CMP_TRAITS:
+        # a key on the most general attribute (`ord`, usable by all five traits): the field is compared through it, so it gets no default
+        # bound; which bound(..) levels are reached and what they contribute does not depend on it
+        for (vn, kind, vsl, fields) in vs:
+            for (n, ty, fsl) in fields:
+                if rng.random() < 0.35:
+                    prog.keyed.add((vn, n))
     if trait == "Default":
         # explicit default values: the field's own bound(..) levels still apply, only its default field bound goes away
         for (vn, kind, vsl, fields) in vs:
